@@ -180,6 +180,13 @@ def check_query(case, m, ref, ctx, classes):
             classes.append("excluded:F1")
             must = must - f1
             missing = missing - f1
+    if ref.latlon and missing:
+        am = {e for e in missing if abs(ref.loc[e[0]][1] - ref.loc[e[1]][1]) > 180.0}
+        if am and ctx.known("KF-C11-AM-EDGE", "an edge whose end points lie on both sides of the antimeridian is indexed / pre-filtered by "
+                                              "its raw longitudes, so a finite-radius edge query near the line does not return it"):
+            classes.append("excluded:KF-C11-AM-EDGE")
+            must = must - am
+            missing = missing - am
     if me is None:
         if missing:
             e = sorted(missing, key=repr)[0]
